@@ -5,6 +5,7 @@ import (
 	"flag"
 	"fmt"
 	"os"
+	"runtime"
 	"runtime/debug"
 	"sort"
 	"strings"
@@ -79,5 +80,20 @@ func run(prop, tier, dir, verif, replay, arch string, rule rules.Rule, start tim
 	c := core.NewCtx(prop, tier, p)
 	c.Start = start
 	rule(c)
+	if tier == "thorough" && arch == "" && replay == "" {
+		// the other build configurations honeytrap compiles for (32-bit targets do not type-check: services/docker
+		// has an int constant that overflows; non-linux targets lack the canary listener)
+		for _, a := range []string{"arm64", "s390x"} {
+			p2, err := core.Load(dir, a)
+			if err != nil {
+				return failClosed("linux/" + a + ": " + err.Error())
+			}
+			c2 := core.NewCtx(prop, tier, p2)
+			rule(c2)
+			c.Merge(c2, "linux/"+a)
+			p2, c2 = nil, nil
+			runtime.GC()
+		}
+	}
 	return c.Finish(verif, replay)
 }
